@@ -36,6 +36,10 @@ enum Cer {
     /// assertion with seeded credential k asking for neither presence nor verification, with a user
     /// validation step that reports neither
     AssertSilent(usize),
+    /// assertion with seeded credential k that asks for a PRF evaluation the credential cannot serve
+    /// (the authenticator has the capability, the credential holds no secret): it is refused, after the
+    /// counter was advanced
+    AssertRefused(usize),
     Register,
 }
 
@@ -88,6 +92,9 @@ struct RunOut {
     final_store: Vec<CredSnap>,
     /// the sequential warm-up assertions (credential id, counter)
     warm: Vec<(Vec<u8>, u32)>,
+    /// a sequential assertion on the first credential after the concurrent phase (configurations with a
+    /// refused assertion only)
+    cool: Option<(Vec<u8>, u32)>,
 }
 
 fn seed_creds() -> Vec<Passkey> {
@@ -108,7 +115,8 @@ fn run_config(cfg: &Config, choose: &mut dyn FnMut(usize, usize) -> usize) -> Ru
                 let silent = matches!(cfg.cers[i], Cer::AssertSilent(_));
                 let uv = RecUv::new(log.clone(), UvOutcome::Check { presence: !silent, verification: !silent }, Some(true)).with_actor(i);
                 uv.set_yields(cfg.uv_yields);
-                auths.push(mk_auth(shared.clone(), uv, AuthCfg { counters: true, ..Default::default() }));
+                let hmac = if matches!(cfg.cers[i], Cer::AssertRefused(_)) { crate::util::HmacCfg::WithoutUv } else { crate::util::HmacCfg::None };
+                auths.push(mk_auth(shared.clone(), uv, AuthCfg { counters: true, hmac, ..Default::default() }));
             }
             // sequential warm-up assertions on every seeded credential, completed before the concurrent phase
             let mut warm: Vec<(Vec<u8>, u32)> = Vec::new();
@@ -124,13 +132,17 @@ fn run_config(cfg: &Config, choose: &mut dyn FnMut(usize, usize) -> usize) -> Ru
                 let creds = &creds;
                 tasks.push(Box::pin(async move {
                     match c {
-                        Cer::Assert(_) | Cer::AssertAny | Cer::AssertSilent(_) => {
+                        Cer::Assert(_) | Cer::AssertAny | Cer::AssertSilent(_) | Cer::AssertRefused(_) => {
                             let allow = match c {
-                                Cer::Assert(k) | Cer::AssertSilent(k) => Some(vec![descriptor(&creds[k].credential_id)]),
+                                Cer::Assert(k) | Cer::AssertSilent(k) | Cer::AssertRefused(k) => Some(vec![descriptor(&creds[k].credential_id)]),
                                 _ => None,
                             };
                             let loud = !matches!(c, Cer::AssertSilent(_));
-                            match a.get_assertion(ga_request(RP, &[1u8; 32], allow, None, loud, loud)).await {
+                            let ext = matches!(c, Cer::AssertRefused(_)).then(|| passkey_types::ctap2::get_assertion::ExtensionInputs {
+                                hmac_secret: None,
+                                prf: Some(passkey_types::ctap2::extensions::AuthenticatorPrfInputs { eval: Some(passkey_types::ctap2::extensions::AuthenticatorPrfValues { first: [5; 32], second: None }), eval_by_credential: None }),
+                            });
+                            match a.get_assertion(ga_request(RP, &[1u8; 32], allow, ext, loud, loud)).await {
                                 Ok(r) => {
                                     let ctr = authdata::decode(&r.auth_data.to_vec()).map(|d| d.counter).unwrap_or(0);
                                     Ok((r.credential.map(|d| d.id.to_vec()).unwrap_or_default(), ctr))
@@ -157,8 +169,17 @@ fn run_config(cfg: &Config, choose: &mut dyn FnMut(usize, usize) -> usize) -> Ru
                 results.push(CerResult { cer: cfg.cers[i], result: r.outputs[i].clone(), first_step: first, last_step: last });
             }
             drop(auths);
+            let mut cool = None;
+            if cfg.cers.iter().any(|c| matches!(c, Cer::AssertRefused(_))) && matches!(r.end, SchedEnd::AllDone) {
+                let uv = RecUv::new(log.clone(), UvOutcome::Check { presence: true, verification: true }, Some(true)).with_actor(9);
+                let mut late = mk_auth(shared.clone(), uv, AuthCfg { counters: true, ..Default::default() });
+                if let Ok(r) = crate::exec::block_on(late.get_assertion(ga_request(RP, &[8u8; 32], Some(vec![descriptor(&creds[0].credential_id)]), None, true, true))) {
+                    cool = Some((r.credential.map(|d| d.id.to_vec()).unwrap_or_default(), authdata::decode(&r.auth_data.to_vec()).map(|d| d.counter).unwrap_or(0)));
+                }
+                drop(late);
+            }
             let final_store: Vec<CredSnap> = $snap(&shared);
-            RunOut { results, end: r.end, branching: r.branching, choices: r.choices, final_store, warm }
+            RunOut { results, end: r.end, branching: r.branching, choices: r.choices, final_store, warm, cool }
         }};
     }
     match (cfg.store, cfg.lock) {
@@ -293,6 +314,8 @@ fn configs(thorough: bool) -> Vec<Config> {
         ("register||register", vec![Cer::Register, Cer::Register]),
         ("assert without allow list||register", vec![Cer::AssertAny, Cer::Register]),
         ("assert without allow list||assert", vec![Cer::AssertAny, Cer::Assert(0)]),
+        ("refused assert||assert on one credential", vec![Cer::Assert(0), Cer::AssertRefused(0)]),
+        ("refused assert||register", vec![Cer::Register, Cer::AssertRefused(0)]),
         ("silent assert||register", vec![Cer::Register, Cer::AssertSilent(0)]),
         ("silent assert||assert on two credentials", vec![Cer::Assert(1), Cer::AssertSilent(0)]),
     ];
@@ -351,6 +374,10 @@ fn scheduler_engine(rep: &mut Report, args: &Args, only: Option<u64>) {
                     let mut items: Vec<_> = out.results.iter().map(|r| (r.cer, r.result.clone(), r.first_step as u64 + 2, (r.last_step as u64).saturating_add(2))).collect();
                     for w in &out.warm {
                         items.push((Cer::Assert(0), Some(Ok(w.clone())), 0, 0));
+                    }
+                    if let Some(c) = &out.cool {
+                        items.push((Cer::Assert(0), Some(Ok(c.clone())), 1_000_000, 1_000_000));
+                        rep.count("cool_down_assertions");
                     }
                     let before = rep.get("duplicate_counter_runs");
                     let dl = match &out.end {
@@ -473,7 +500,7 @@ fn thread_round(rep: &mut Report, seed: u64, idx: u64, threads: usize, per_threa
                                     Err(e) => Err(status_byte_ref(&e)),
                                 })
                             }
-                            Cer::AssertSilent(_) => unreachable!("not generated by the thread engine"),
+                            Cer::AssertSilent(_) | Cer::AssertRefused(_) => unreachable!("not generated by the thread engine"),
                             Cer::Register => block_on_thread(auth.make_credential(mc_request(RP, b"new", &[2u8; 32], vec![pk_param(coset::iana::Algorithm::ES256)], None, None, false, true, true)), 200).map(|r| match r {
                                 Ok(r) => Ok((authdata::decode(&r.auth_data.to_vec()).ok().and_then(|d| d.attested.map(|a| a.cred_id)).unwrap_or_default(), 0)),
                                 Err(e) => Err(status_byte_ref(&e)),
